@@ -7,6 +7,7 @@ import Mathlib.Tactic.IntervalCases
 
 namespace Atomman.C11
 open Atomman.Gen
+set_option linter.unusedSimpArgs false
 
 def matrixKeys : List String := ["Cij", "Sij", "Cij9", "Cijkl", "Sijkl"]
 
